@@ -1,7 +1,7 @@
 #!/bin/bash
 # usage: tools/sweep.sh <tier> <seed-from> <seed-to> [props...]   -- runs checks over a seed range, prints one line per run and any violation
 TIER=$1; A=$2; B=$3; shift 3
-PROPS=${@:-C01 C02 C03 C04 C05 C06 C09 C10 C11 C13 C15 C16 C17 C18 C19 C20}
+PROPS=${@:-C01 C02 C03 C04 C05 C06 C07 C08 C09 C10 C11 C12 C13 C14 C15 C16 C17 C18 C19 C20}
 mkdir -p sweep-replays
 for s in $(seq $A $B); do for p in $PROPS; do
   VERIF_REPLAY_DIR=$PWD/sweep-replays VERIF_EVIDENCE_DIR=$PWD/sweep-replays VERIF_SEED=$s ./check $p --tier $TIER 2>&1 | grep -v "^KNOWN" | tail -3 | cut -c1-400
